@@ -6,16 +6,22 @@
 //   rel <scenario> <format-hex> <other-format-hex> <op>* / <op>*     copy / move / relocation of the formatter object between the two groups
 //   seq <format-hex> <op>* / <format-hex> <op>* / ...        several formatters, one after the other
 //   exc <arg>+
-//   arg = s<hex> | s- | n<hex> | r<hex> | l<hex> | c<hex byte> | i<dec> | d<dec> | b0 b1 | f<dec> | h<dec> | x<dec> | w<dec> | t0 t1 | m<manipulator>   (see ocaml/fmt_driver.ml)
+//   arg = s<hex> | s- | n<hex> | r<hex> | l<hex> | c<hex byte> | i<dec> | d<dec> | b0 b1 | f<dec> | h<dec> | x<dec> | w<dec> | t0 t1 | m<manipulator>
+//       | v<k><hex>  k = t p k e v a o : a type with an operator<< and (optionally) a DIFFERENT conversion to a string type   (see ocaml/fmt_driver.ml)
 #include "common.hpp"
+#include "fmt_dual.hpp" // revision 1 — the build cache is keyed by the .cpp files and common.hpp: bump this number when editing fmt_dual.hpp
 #include <nitro/except/raise.hpp>
 #include <nitro/format/format.hpp>
 
 #include <cerrno>
+#include <cstring>
+#include <filesystem>
 #include <iomanip>
+#include <string_view>
 #include <map>
 #include <utility>
 
+using namespace fmtv; // Val, the streamable-and-convertible argument types, derived_error, the real-type packs
 namespace
 {
 // user-defined types whose operator<< changes the formatting state of the stream and does not restore it
@@ -35,19 +41,13 @@ std::ostream& operator<<(std::ostream& o, const BoolAlpher& x) { return o << std
 // whole case, passed as NON-CONST lvalues; after the case every variable must still hold its text
 std::map<std::string, std::string> g_vars;
 
-struct Val
-{
-    char kind = 's';
-    std::string s; // text, or manipulator name
-    std::string* var = nullptr; // kind 'n': the caller's variable
-    long l = 0;    // number, or manipulator parameter
-    double d = 0;
-};
+// (struct Val: fmt_dual.hpp)
 template <typename Fn>
 void with_value(const Val& v, Fn&& fn)
 {
     switch (v.kind)
     {
+    case 'v': with_dual(v, std::forward<Fn>(fn)); break;
     case 's': fn(v.s); break;                 // const std::string&
     case 'n': fn(*v.var); break;              // std::string& (non-const lvalue, the caller's variable)
     case 'r': fn(std::string(v.s)); break;    // std::string&& (temporary)
@@ -75,11 +75,14 @@ void with_value(const Val& v, Fn&& fn)
         break;
     }
 }
-std::ostream& operator<<(std::ostream& o, const Val& v)
+} // namespace
+std::ostream& fmtv::operator<<(std::ostream& o, const Val& v)
 {
     with_value(v, [&](auto&& x) { o << std::forward<decltype(x)>(x); });
     return o;
 }
+namespace
+{
 bool parse_long(const std::string& w, long& out)
 {
     char* end = nullptr;
@@ -102,6 +105,11 @@ bool parse_arg0(const std::string& w, Val& v)
         v.var = &g_vars.emplace(v.s, v.s).first->second;
         return true;
     case 'l': v.s = vh::unhex(r); return v.s.find('\0') == std::string::npos;
+    case 'v':
+        if (r.size() < 2 || std::strchr("tpkevao", r[0]) == nullptr) return false;
+        v.sub = r[0];
+        v.s = vh::unhex(r.substr(1));
+        return v.s.find('\0') == std::string::npos && (v.sub != 'a' || v.s.size() <= 15);
     case 'c': v.s = vh::unhex(r); return v.s.size() == 1;
     case 'i': case 'd': case 'h': case 'x': case 'w':
         if (!parse_long(r, v.l)) return false;
@@ -134,7 +142,7 @@ bool parse_arg0(const std::string& w, Val& v)
     default: return false;
     }
 }
-bool stateless(const Val& v) { return v.kind == 's' || v.kind == 'n' || v.kind == 'r' || v.kind == 'l' || v.kind == 'c' || v.kind == 'i' || v.kind == 'd' || v.kind == 'b' || v.kind == 'f'; }
+bool stateless(const Val& v) { return v.kind == 'v' || v.kind == 's' || v.kind == 'n' || v.kind == 'r' || v.kind == 'l' || v.kind == 'c' || v.kind == 'i' || v.kind == 'd' || v.kind == 'b' || v.kind == 'f'; }
 // loc cases (global locale with digit grouping): only the state-neutral kinds are in scope there
 bool g_loc_mode = false;
 bool parse_arg(const std::string& w, Val& v) { return parse_arg0(w, v) && (!g_loc_mode || stateless(v)); }
@@ -147,6 +155,7 @@ bool all_strings(const std::vector<Val>& v) { return all_kind(v, 's'); }
 
 using F = nitro::detail::formatter<char>;
 constexpr std::size_t MAXN = 8;
+
 
 template <std::size_t... I>
 void call_args_val(F& f, const std::vector<Val>& v, std::index_sequence<I...>) { f.args(v[I]...); }
@@ -163,6 +172,7 @@ bool dispatch_args(F& f, const std::vector<Val>& v)
     if (v.size() == N)
     {
         if (all_strings(v)) call_args_str(f, v, std::make_index_sequence<N>{});
+        else if (N > 0 && N <= 3 && has_dual(v) && args_real_pack(f, v)) {}
         else if (N > 0 && all_kind(v, 'n')) call_args_var(f, v, std::make_index_sequence<N>{});
         else if (N > 0 && all_kind(v, 'r')) call_args_tmp(f, v, std::make_index_sequence<N>{});
         else call_args_val(f, v, std::make_index_sequence<N>{});
@@ -178,11 +188,6 @@ template <std::size_t... I>
 [[noreturn]] void raise_str(const std::vector<Val>& v, std::index_sequence<I...>) { nitro::raise(v[I].s...); }
 template <std::size_t... I>
 std::string construct_val(const std::vector<Val>& v, std::index_sequence<I...>) { return nitro::except::exception(v[I]...).what(); }
-// an exception type of the caller, constructed through the inherited variadic constructor
-struct derived_error : nitro::except::exception
-{
-    using nitro::except::exception::exception;
-};
 template <std::size_t... I>
 [[noreturn]] void raise_var(const std::vector<Val>& v, std::index_sequence<I...>) { nitro::raise(*v[I].var...); }
 template <std::size_t... I>
@@ -686,6 +691,11 @@ static std::string run_case_inner(const std::vector<std::string>& w)
             // one stream serves all arguments of a message: only arguments that leave its state alone are in scope
             if (!stateless(v)) return "BADCASE";
             vs.push_back(v);
+        }
+        if (has_dual(vs))
+        {
+            std::string out;
+            if (exc_real_pack(vs, out)) return out;
         }
         return dispatch_exc<MAXN>(vs);
     }
